@@ -32,6 +32,9 @@ type C02Case struct {
 var clockPositions = []string{"nb-1s", "nb-1ns", "nb", "inside", "na", "na+1ns", "na+1s"}
 
 func clockAt(w string, pos string) time.Time {
+	if strings.HasPrefix(w, "wide-ski") {
+		w = "wide"
+	}
 	nb, na := h.WindowBounds(w)
 	switch pos {
 	case "nb-1s":
@@ -108,13 +111,17 @@ func genC02(t *rapid.T) C02Case {
 	c := C02Case{SP: h.BaseSP()}
 	c.Kind = rapid.SampledFrom([]string{"response", "assertion", "LogoutRequest", "LogoutResponse"}).Draw(t, "kind")
 	c.Signer = h.CertRef{Key: rapid.SampledFrom([]string{"T1", "T1", "T2", "T3", "A"}).Draw(t, "signerKey"), Window: rapid.SampledFrom(h.Windows).Draw(t, "window")}
+	if (c.Signer.Key == "T1" || c.Signer.Key == "T2") && rapid.IntRange(0, 3).Draw(t, "skiCert") == 0 {
+		// renewed certificate on an unchanged key, both with a SubjectKeyIdentifier (as openssl makes them)
+		c.Signer.Window = rapid.SampledFrom([]string{"wide-ski", "wide-ski2"}).Draw(t, "skiWindow")
+	}
 	c.KeyInfo = rapid.SampledFrom([]string{"own", "own", "own", "other", "attacker", "absent", "absent", "empty"}).Draw(t, "keyInfo")
 	c.Tamper = rapid.SampledFrom([]string{"none", "none", "none", "none", "content", "digest", "sigvalue"}).Draw(t, "tamper")
 	c.ClockPos = rapid.SampledFrom(clockPositions).Draw(t, "clockPos")
 	c.Method = methodFor(c.Signer.Key, rapid.IntRange(0, 3).Draw(t, "method"))
 	c.C14N = rapid.SampledFrom(h.C14Ns).Draw(t, "c14n")
 	// store composition
-	pool := []h.CertRef{{Key: "T1", Window: "wide"}, {Key: "T2", Window: "wide"}, {Key: "T3", Window: "wide"}, {Key: "U1", Window: "wide"}, {Key: "U2", Window: "wide"},
+	pool := []h.CertRef{{Key: "T1", Window: "wide-ski"}, {Key: "T1", Window: "wide-ski2"}, {Key: "T2", Window: "wide-ski"}, {Key: "T2", Window: "wide-ski2"}, {Key: "T1", Window: "wide"}, {Key: "T2", Window: "wide"}, {Key: "T3", Window: "wide"}, {Key: "U1", Window: "wide"}, {Key: "U2", Window: "wide"},
 		{Key: "T1", Window: "past"}, {Key: "T1", Window: "future"}, {Key: "T1", Window: "narrow"}, {Key: "T2", Window: "narrow"}}
 	var store []h.CertRef
 	if c.Signer.Key != "A" && rapid.IntRange(0, 4).Draw(t, "signerInStore") != 0 {
@@ -357,6 +364,9 @@ func genC02Seq(t *rapid.T) C02Seq {
 		if q.KeepClock && i > 0 {
 			// same window and clock position as the first step, so the instant (and the clock object) stays
 			c.Signer.Window, c.ClockPos = q.Steps[0].Signer.Window, q.Steps[0].ClockPos
+			if h.K(c.Signer.Key).Cert[c.Signer.Window] == nil {
+				c.Signer.Window = "wide" // the SKI-bearing certificates exist for T1 / T2 only; same validity window
+			}
 			for j := range c.SP.Store {
 				if c.SP.Store[j].Key == c.Signer.Key {
 					c.SP.Store[j].Window = c.Signer.Window
@@ -447,6 +457,23 @@ func TestC02_Grid(t *testing.T) {
 			c.SP.Store = []h.CertRef{{Key: "T1", Window: "wide"}}
 			finishC02(&c, 0, func(err error) { t.Fatalf("harness: %v", err) })
 			cases = append(cases, c)
+		}
+	}
+	// renewed certificate on the same key (both with a SubjectKeyIdentifier): each member is honoured with
+	// KeyInfo, and two entries are two entries when the message names no certificate
+	for _, kind := range []string{"response", "assertion", "LogoutRequest", "LogoutResponse"} {
+		for _, signWith := range []string{"wide-ski", "wide-ski2"} {
+			for _, ki := range []string{"own", "absent"} {
+				for _, order := range []int{0, 1} {
+					c := C02Case{SP: h.BaseSP(), Kind: kind, Signer: h.CertRef{Key: "T1", Window: signWith}, KeyInfo: ki, Tamper: "none", ClockPos: "inside", Method: h.RSAMethods[1], C14N: h.C14Ns[0]}
+					c.SP.Store = []h.CertRef{{Key: "T1", Window: "wide-ski"}, {Key: "T1", Window: "wide-ski2"}}
+					if order == 1 {
+						c.SP.Store[0], c.SP.Store[1] = c.SP.Store[1], c.SP.Store[0]
+					}
+					finishC02(&c, 0, func(err error) { t.Fatalf("harness: %v", err) })
+					cases = append(cases, c)
+				}
+			}
 		}
 	}
 	h.RunCases(t, "C02", cases, checkC02)
